@@ -635,6 +635,16 @@ fn run_op_inner(st: &mut State, op: &Op) -> Obs {
         (_, "close_stdin") => { unsafe { libc::close(0) }; Obs { ok: true, ..Default::default() } }
         (_, "getpid") => Obs { ok: true, ret: Some(unsafe { libc::getpid() } as i64), ..Default::default() },
         (_, "fdtable") => Obs { ok: true, fds_after: fd_table(), ..Default::default() },
+        (_, "limit_fds") => {
+            // RLIMIT_NOFILE (soft) = highest open descriptor + 1 + num: the operation that follows finds exactly `num` free slots
+            // above what is open now (plus whatever holes exist below)
+            let top = fd_table().iter().map(|e| e.fd).max().unwrap_or(2) as u64;
+            let mut lim = libc::rlimit { rlim_cur: 0, rlim_max: 0 };
+            unsafe { libc::getrlimit(libc::RLIMIT_NOFILE, &mut lim) };
+            lim.rlim_cur = std::cmp::min(lim.rlim_max, top + 1 + op.num.unwrap_or(0) as u64);
+            if unsafe { libc::setrlimit(libc::RLIMIT_NOFILE, &lim) } != 0 { return harness_err("setrlimit failed".into()); }
+            Obs { ok: true, ret: Some(lim.rlim_cur as i64), ..Default::default() }
+        }
         (c, n) => harness_err(format!("unknown op {}:{}", if c { "c" } else { "rust" }, n)),
     }
 }
